@@ -132,7 +132,7 @@ namespace GeographicLib {
       {
         if (!((_nNx >= _nmx && _nmx >= _mmx && _mmx >= 0) ||
               // If mmx = -1 then the sums are empty so require nmx = -1 also.
-              (_nmx == -1 && _mmx == -1)))
+              (_nNx >= -1 && _nmx == -1 && _mmx == -1)))
           throw GeographicErr("Bad indices for coeff");
         // Make sure that index doesn't overflow
         if (!(_nNx < (1 << 14)))
